@@ -318,6 +318,13 @@ def run(prog, tier, extra=None):
                     "privileged_type_exits": sorted(set("%s@%s" % (v, tv.loc(b)) for b, v in priv_sites)),
                     "states": ex.states, "verdict": "every other accept path passes the true edge"})
 
+    # the ledger C01's verdicts are evaluated against is the one wind/unwind maintain, and the only un-signed spends the
+    # validator admits are the rebroadcasts it re-derives: both mechanisms are decided by the C03 / C13 rules, cross-listed here
+    from ._include import include
+    include(res, prog, tier, extra, "c03", ["C03.lockstep", "C03.full-before-apply", "C03.order", "C03.ledger-owner"],
+            "inputs are checked against the UTXO set of that same chain only if wind/unwind keep the set in step with the chain")
+    include(res, prog, tier, extra, "c13", ["C13.derive"],
+            "an ATR-typed transaction skips the signature and input checks, so every one must be matched against the derived rebroadcast commitment")
     res.explanation = (
         "Decides the clause 'validation gates acceptance': for each call site of the verdict family on the acceptance chain, "
         "a path exploration from the point where the verdict is known to reject (exact on the boolean lowering of &&, ||, ! and early returns) "
